@@ -1,5 +1,6 @@
 import BlockModes.Glue.Wrapper
 import BlockModes.Lemmas.Core
+import BlockModes.Lemmas.CoreInst
 /-
   C10 — seeking and position reporting are coherent with the keystream.
   Position reporting (this section): whatever the state, `try_current_pos::<T>()` either fails or returns
@@ -39,5 +40,56 @@ theorem currentPos_overflow_is_err (K : Core σ) (s : Wr σ) (snMax : Nat)
     · split
       · rfl
       · omega
+
+/-! ### the keystream side: every finite sequence of `{seek, apply, current_pos}` operations -/
+
+open Spec Impl
+
+/-- **CTR, all six flavours** (`f.w = 8·cs`, block = `k ≥ 1` counter-size words, block size < 256): from a
+    fresh instance, any sequence of operations whose seek targets lie inside the keystream and whose
+    requests are shorter than 2^64 bytes is observationally the reference machine on the byte position `q`:
+    after `seek p` the bytes produced are keystream bytes `p, p+1, …` of the documented keystream; a reported
+    position is `q`; an error is reported instead of a value that does not fit; requests succeed exactly
+    while they end at or before `(2^w − 1)·bs`. -/
+theorem ctr_ops_coherent (C : Cipher) (hC : C.Valid) (hbs : C.bs < 256) (f : Flavor) (hw : f.w = 8 * f.cs)
+    (hcs : 0 < f.cs) (k : Nat) (hk : 0 < k) (iv : Bytes) (hiv : iv.length = k * f.cs) (hblk : C.bs = k * f.cs)
+    (w : Nat) (ops : List SOp) (hv : ∀ o ∈ ops, o.Valid C.bs (2 ^ f.w - 1)) :
+    (Wr.runOps (Ctr.core C f) w (Wr.fromCore (Ctr.core C f) (Ctr.init C f iv)) ops).1
+      = (refRun C.bs (2 ^ f.w - 1) (ksByte C.bs (ctrKs C f iv)) 0 ops).1 := by
+  have hK := ctr_coreSpec C hC hbs f hw hcs k hk iv hiv hblk
+  have hS := ctr_seekSpec C f iv
+  obtain ⟨hI, hq⟩ := fromCore_inv hK (Ctr.init C f iv) 0 (ctr_init_rep C f iv)
+  have := ops_coherent hK hS w ops _ 0 hI hv
+  rw [hq, Nat.zero_mul] at this
+  exact this
+
+/-- **BelT-CTR** (16-byte blocks): the same statement with the limit `2^128 − 1` blocks. -/
+theorem belt_ops_coherent (C : Cipher) (hC : C.Valid) (hbs : C.bs = 16) (iv : Bytes) (hiv : iv.length = 16)
+    (w : Nat) (ops : List SOp) (hv : ∀ o ∈ ops, o.Valid C.bs (2 ^ 128 - 1)) :
+    (Wr.runOps (Belt.core C) w (Wr.fromCore (Belt.core C) (Belt.init C iv)) ops).1
+      = (refRun C.bs (2 ^ 128 - 1) (ksByte C.bs (beltKs C iv)) 0 ops).1 := by
+  have hs0 := C06.beltS0_lt C hC hbs iv hiv
+  have hK := belt_coreSpec C hC hbs iv
+  have hS := belt_seekSpec C iv hs0
+  obtain ⟨hI, hq⟩ := fromCore_inv hK (Belt.init C iv) 0 (belt_init_rep C iv hs0)
+  have := ops_coherent hK hS w ops _ 0 hI hv
+  rw [hq, Nat.zero_mul] at this
+  exact this
+
+/-- the reference machine reports the position exactly (when the end of the current block fits the type). -/
+theorem ref_pos_exact (bs lim : Nat) (kb : Nat → UInt8) (q m : Nat) (h : (q + bs - 1) / bs * bs ≤ m) :
+    (refStep bs lim kb q (.pos m)).1 = .pos q := by simp [refStep, h]
+
+/-- after `seek p` the reference machine produces keystream bytes `p, p+1, …`. -/
+theorem ref_seek_then_apply (bs lim : Nat) (kb : Nat → UInt8) (q p : Nat) (d : Bytes) (h : p + d.length ≤ lim * bs) :
+    (refRun bs lim kb q [.seek p, .apply d]).1 = [.ok, .out (xorB d (ksBytes kb p d.length))] := by
+  simp [refRun, refStep, h]
+
+/-! non-vacuity: a valid history with a forward seek, a backward seek and a mid-block seek (bs = 16, w = 32) -/
+example : ∀ o ∈ [SOp.apply [1, 2, 3], .seek 1000, .pos (2 ^ 32 - 1), .seek 5, .apply [4], .seek 17],
+    o.Valid 16 (2 ^ 32 - 1) := by
+  intro o ho
+  simp at ho
+  rcases ho with rfl | rfl | rfl | rfl | rfl | rfl <;> simp [SOp.Valid]
 
 end Thm.C10
